@@ -18,7 +18,10 @@ def templates(tier):
            ('type-tail', T('word12', 2), 6),
            ('builtin-tail', T('ab!', 2), 3),
            ('hex-max-payload', T('0x' + 'f' * 31, 2), 33),
-           ('two-payloads', T('7 0x', 3), 4)]
+           ('two-payloads', T('7 0x', 3), 4),
+           # legal spellings with leading zeros: more digits than the width, value still within 128 bits
+           ('hex-leading-zeros', T('0x' + '0' * 30 + 'A', 2), 33),
+           ('binary-leading-zero', T('0b0' + '1' * 126, 2), 129)]
     if tier != 'quick':
         ts += [('two-strings', T('"a" "', 3), 5), ('usize-tail', T('usiz', 3), 4)]
     return ts
